@@ -72,7 +72,7 @@ class C02(ProtoSpec):
                                  ticks=(P, E + 2 * P), max_ticks=1, max_restarts=1, max_adds=1, max_drops=1)
             self.depth = 7
         else:
-            self.driver = Driver(binds, mids=("m", "n"), msgs=(("p", "00", "i1"), ("q", "01", None)),
+            self.driver = Driver(binds[:3], mids=("m", "n"), msgs=(("p", "00", "i1"), ("q", "01", None)),
                                  kinds=("bind", "open", "add", "close", "drop"),
                                  ticks=(P, E + 2 * P), max_ticks=2, max_restarts=1, max_adds=2, max_drops=2)
             self.depth = 10
@@ -89,17 +89,37 @@ class C02(ProtoSpec):
         return any(g.alive and g.sub is not None for g in mon.conns.values())
 
 
+class C02Deep(C02):
+    """a narrow alphabet from a deep seeded state: after a restart two connections of one side are bound and one of
+    them has gone again; then a sweep, opens by the survivor and by a newcomer, adds"""
+
+    def configure(self, tier):
+        P, E = P_E()
+        X = "X"
+        self.cfg = dict(storage="file")
+        binds = [[(X, "A")], [(X, "A")], [(X, "A")], [(X, "B")], [(X, "B")]]
+        self.driver = Driver(binds, mids=("m",), msgs=(("p", "00", "i1"),), kinds=("bind", "open", "add", "drop"),
+                             ticks=(P,), max_ticks=1, max_adds=1, max_drops=2 if tier == "quick" else 3,
+                             max_conns=4 if tier == "quick" else 5)
+        self.depth = 5 if tier == "quick" else 7
+
+    def seeds(self):
+        return [[("cbind", 0, "X", "A"), ("open", 0, "m"), ("restart",), ("cbind", 1, "X", "A"), ("cbind", 2, "X", "A"),
+                 ("drop", 1)]]
+
+
 RULE = ("BFS over every history of the driver's alphabet (connections, binds, open/add/close, disconnects, sweeps "
         "through the real timer, restart) from the initial state and from a restarted-server seed; a state is "
         "non-trivial when at least one connection is ghost-subscribed to a mailbox")
 
 
 def make_spec(tier, name=None):
-    return C02(tier)
+    return C02Deep(tier) if name == "c02-deep" else C02(tier)
 
 
 def run(pid, tier, seed, args):
     from .base_run import run_specs
     spec = make_spec(tier)
     budget = 100 if tier == "quick" else 1500
-    return run_specs(pid, tier, seed, args, [("c02", spec, spec.depth, budget)], rule=RULE)
+    deep = make_spec(tier, "c02-deep")
+    return run_specs(pid, tier, seed, args, [("c02", spec, spec.depth, budget), ("c02-deep", deep, deep.depth, budget / 2)], rule=RULE)
